@@ -21,7 +21,7 @@ CONE = ["Props/C12.v", "Props/C12Tree.v", "Props/C12Frag.v", "Proofs/FragLayout.
 ITER = {b"moov", b"trak", b"mdia", b"minf", b"stbl", b"udta", b"mvex", b"dinf"}
 # sample entries that search their child boxes for the codec configuration (avc1 -> avcC, mp4a -> esds): boxes may be inserted among the child boxes
 ENTRY_ITER = {b"avc1", b"mp4a"}
-PADDABLE = {b"mvhd", b"tkhd", b"mdhd", b"vmhd", b"smhd", b"stts", b"ctts", b"stsc", b"stsz", b"stss", b"stco", b"co64", b"hdlr"}
+PADDABLE = {b"mvhd", b"tkhd", b"mdhd", b"vmhd", b"smhd", b"stts", b"ctts", b"stsc", b"stsz", b"stss", b"stco", b"co64", b"hdlr", b"esds"}
 LARGE_OK = ITER | PADDABLE | {b"stsd", b"dinf", b"ftyp", b"free", b"meta", b"ilst"}
 
 
@@ -61,6 +61,8 @@ def transform(node, rng, p_ins=0.5, p_perm=0.5, p_large=0.25, p_pad=0.4):
             n.items.insert(rng.randint(first, len(n.items)), junk(rng))
     if n.typ in PADDABLE and rng.random() < p_pad:
         n.pad = bytes(rng.randrange(256) for _ in range(rng.choice([1, 4, 8, 13])))
+    if n.typ == b"esds" and p_pad > 0 and rng.random() < 0.5:
+        n.pad = b"\0"      # exactly one spare byte behind the ES descriptor: a descriptor loop reads its tag and the length byte beyond the box before it is repositioned
     if n.typ in LARGE_OK and rng.random() < p_large:
         n.large = True
     return n
@@ -124,8 +126,15 @@ def fragmented_groups(rng, ngroups, nvar):
         for v in range(nvar):
             seed = rng.randrange(1 << 30)
             tfm = None if v == 0 else (lambda box, fi, seed=seed: transform_moof(box, random.Random(seed * 131 + fi)))
-            init, fin = isogen.build_fragmented(copy.deepcopy(tracks), copy.deepcopy(frags), trex_dur=10, moof_transform=tfm,
-                                                extra_between=([] if v % 2 == 0 else [junk(random.Random(seed))]))
+            # every other group: a movie extends header box and one trex per track with DIFFERENT defaults; the variants move the mehd among the trex boxes
+            # (the trex boxes keep their relative order: which of several same-typed boxes a reader keeps is not a layout question)
+            if g % 2 == 1:
+                kw = {"trex_durs": {t["id"]: 10 + 7 * j for j, t in enumerate(tracks)}, "mehd_dur": 12345,
+                      "mvex_order": (lambda n, v=v: [x for x in range(1, n)][:(v % n)] + [0] + [x for x in range(1, n)][(v % n):])}
+            else:
+                kw = {"trex_dur": 10}
+            init, fin = isogen.build_fragmented(copy.deepcopy(tracks), copy.deepcopy(frags), moof_transform=tfm,
+                                                extra_between=([] if v % 2 == 0 else [junk(random.Random(seed))]), **kw)
             m1, _ = fin(len(init))
             m0, _ = fin(0)
             variants.append(("f%d.v%d.single" % (g, v), {"data": init + m1}))
